@@ -194,7 +194,7 @@ def merchant_init(h, M, cid, cb, mb, proof_hex, ctx, u=None, seed=12):
     served, _ = h.served()
     if t[0] == "1":
         return {"ok": True, "closing": t[1], "vbs": t[2], "chal": ch, "served": served}
-    return {"ok": False, "why": t[0], "chal": ch, "served": served}
+    return Flow({"ok": False, "stage": "initialize refused", "why": t[0], "chal": ch, "served": served})
 
 
 def establish_dls(M, st, bf_s, bf_c, ep, c):
@@ -222,17 +222,17 @@ def full_establish(h, M, rng, cid, cb, mb, ctx):
     u1, u2 = rand_nz(rng), rand_nz(rng)
     mi = merchant_init(h, M, cid, cb, mb, e["proof_hex"], ctx, u=u1)
     if not mi["ok"]:
-        return {"ok": False, "stage": "init", "e": e, "mi": mi}
+        return Flow({"ok": False, "stage": "init", "e": e, "mi": mi})
     t = h.call("req_complete", e["req_hex"], mi["closing"], M.cconfig)
     if t[0] != "ok":
-        return {"ok": False, "stage": "complete", "e": e, "mi": mi}
+        return Flow({"ok": False, "stage": "complete", "e": e, "mi": mi})
     inactive = t[1]
     h.rng(13, [u2])
     token = h.call("m_activate", M.handle, mi["vbs"])[0]
     t = h.call("inactive_activate", inactive, token, M.cconfig)
     if t[0] != "ok":
-        return {"ok": False, "stage": "activate", "e": e, "mi": mi, "inactive": inactive, "token": token}
-    return {"ok": True, "e": e, "mi": mi, "inactive": inactive, "token": token, "ready": t[1], "u": (u1, u2)}
+        return Flow({"ok": False, "stage": "activate", "e": e, "mi": mi, "inactive": inactive, "token": token})
+    return Flow({"ok": True, "e": e, "mi": mi, "inactive": inactive, "token": token, "ready": t[1], "u": (u1, u2)})
 
 
 def pay_once(h, M, rng, ready_hex, amount, ctx, faults=None):
@@ -241,28 +241,28 @@ def pay_once(h, M, rng, ready_hex, amount, ctx, faults=None):
     h.rng(rng.randrange(2 ** 31))
     t = h.call("ready_start", ready_hex, amount, hx(ctx), M.cconfig)
     if t[0] != "ok":
-        return {"ok": False, "stage": "start", "ready": t[1], "error": t[2:]}
+        return Flow({"ok": False, "stage": "start", "ready": t[1], "error": t[2:]})
     started, nonce_hex, proof_hex = t[1], t[2], t[3]
     ch = last_challenge(h)
     h.rng(rng.randrange(2 ** 31))
     a = h.call("m_allow", M.handle, amount, nonce_hex, proof_hex, hx(ctx))
     out = {"started": started, "nonce": nonce_hex, "proof_hex": proof_hex, "chal": ch}
     if a[0] != "1":
-        return dict(out, ok=False, stage="allow")
+        return Flow(dict(out, ok=False, stage="allow"))
     unrev, closing = a[1], a[2]
     l = h.call("started_lock", started, closing, M.cconfig)
     if l[0] != "ok":
-        return dict(out, ok=False, stage="lock", unrev=unrev, closing=closing)
+        return Flow(dict(out, ok=False, stage="lock", unrev=unrev, closing=closing))
     locked, pair, revbf = l[1], l[2], l[3]
     h.rng(rng.randrange(2 ** 31))
     cpay = h.call("u_complete", unrev, pair, revbf)
     if cpay[0] != "ok":
-        return dict(out, ok=False, stage="complete_payment", locked=locked, unrev=unrev, closing=closing, pair=pair, revbf=revbf)
+        return Flow(dict(out, ok=False, stage="complete_payment", locked=locked, unrev=unrev, closing=closing, pair=pair, revbf=revbf))
     token = cpay[1]
     ul = h.call("locked_unlock", locked, token, M.cconfig)
     if ul[0] != "ok":
-        return dict(out, ok=False, stage="unlock", locked=locked, token=token)
-    return dict(out, ok=True, unrev=unrev, closing=closing, locked=locked, pair=pair, revbf=revbf, token=token, ready=ul[1])
+        return Flow(dict(out, ok=False, stage="unlock", locked=locked, token=token))
+    return Flow(dict(out, ok=True, unrev=unrev, closing=closing, locked=locked, pair=pair, revbf=revbf, token=token, ready=ul[1]))
 
 
 # ---------------------------------------------------------------------------------------------
@@ -344,7 +344,7 @@ def merchant_allow(h, M, amount, nonce, proof_hex, ctx, u=None, seed=21):
     ch = last_challenge(h)
     if t[0] == "1":
         return {"ok": True, "unrev": t[1], "closing": t[2], "chal": ch}
-    return {"ok": False, "why": t[0], "chal": ch}
+    return Flow({"ok": False, "stage": "allow_payment refused", "why": t[0], "chal": ch})
 
 
 def recover_pay(M, pts, served, started, pp, tok, c):
